@@ -299,7 +299,10 @@ SPECIAL = ['A1#', 'ANCHORARRAY(A1)', 'ANCHORARRAY(A1:B2)', '_xlfn.ANCHORARRAY(A1
            'S!#REF!', "'My S'!#REF!", '#REF!#', 'A1:B2#', 'A:A#', '1:1#', 'S!A1#', 'R[1]C[1]#', 'R1C1#', 'ANCHORARRAY()', 'ANCHORARRAY(1)', 'A1##', '#N/A#',
            '#NULL!', '#DIV/0!', '#VALUE!', '#NUM!', '#NAME?', '#GETTING_DATA', '#SPILL!', '#CALC!', '#FIELD!', '#N/A!', '#n/a', '#Ref!',
            # relative and R1C1 references parsed without a host cell
-           'R[-5]C[1]', 'R[1]C[1]:R[2]C[2]', 'R[1]:R[2]', 'C[1]:C[2]', 'R[-1]C[-1]', 'R1C1', 'R1C1:R2C2', 'R1:R2', 'C1:C2', 'RC', 'R[0]C[0]', 'S!R[1]C[1]', 'MYNAME', 'S!MYNAME']
+           'R[-5]C[1]', 'R[1]C[1]:R[2]C[2]', 'R[1]:R[2]', 'C[1]:C[2]', 'R[-1]C[-1]', 'R1C1', 'R1C1:R2C2', 'R1:R2', 'C1:C2', 'RC', 'R[0]C[0]', 'S!R[1]C[1]', 'MYNAME', 'S!MYNAME',
+           # the spill operator and its function form over names (the name stands for whatever it is defined as)
+           'MYNAME#', 'S!MYNAME#', 'ANCHORARRAY(MYNAME)', 'ANCHORARRAY(S!MYNAME)', "ANCHORARRAY('My S'!MYNAME)", 'ANCHORARRAY(MY.NAME_1)', 'ANCHORARRAY(TRUE)', 'ANCHORARRAY("A1")',
+           'ANCHORARRAY(#REF!)', 'ANCHORARRAY(A1#)', 'ANCHORARRAY(ANCHORARRAY(A1))', 'ANCHORARRAY(A1,B1)', 'ANCHORARRAY((A1))', 'ANCHORARRAY(A:A)', 'ANCHORARRAY(R[1]C[1])', 'ANCHORARRAY(F(1))']
 
 
 def special_cases(tier):
@@ -444,8 +447,60 @@ def run_clash(case):
     return result(n, list(oc), fails)
 
 
+# ---- an error literal qualified by a sheet: only a sheet name may stand before the '!'
+TOKE = ['1', '"s"', 'A1', 'TRUE', '#N/A', 'F(', '(', ')', '{', '}', ',', ';', '+', '-', '*', '%', '~', '?', "'S x'", '#REF!']
+ERRS = ['#REF!', '#DIV/0!', '#N/A']
+
+
+def errsheet_cases(tier):
+    for L in range(1, 4 if tier == 'quick' else 5):
+        for i in range(len(TOKE)):
+            yield ['errsheet', L, i]
+
+
+def run_errsheet(case):
+    _, L, i = case
+    install_probe()
+    fails, oc, n = [], {}, 0
+    for rest in itertools.product(TOKE, repeat=L - 1):
+        toks = [TOKE[i]] + list(rest)
+        for noeq in (False, True):
+            for err in (ERRS if L < 3 else ERRS[:1]):
+                # the qualified literal stands where a plain error literal would: same verdict as with '#N/A' there, when a sheet name precedes the '!'
+                if toks[-1] in ('A1', 'TRUE', "'S x'"):
+                    if any(t in ('~', '?', "'S x'", '#REF!') for t in toks[:-1]):
+                        exp = 'INVALID' if any(t in ('~', '?') for t in toks[:-1]) else 'UNSPEC'
+                    else:
+                        _, exp, _, _ = judge_tokens(toks[:-1] + ['#N/A'], '')
+                        if len(toks) > 1 and toks[-1] != "'S x'" and (toks[-2] in ALNUM_END or toks[-2] in ('#N/A', '"s"')):
+                            exp = 'SKIP'
+                        elif exp == 'INVALID' and judge_tokens(toks[:-1] + ['A1'], '')[1] != 'INVALID':
+                            exp = 'UNSPEC'      # where a reference may stand but a constant may not (a union): the qualified literal is a broken reference
+                else:
+                    exp = 'INVALID'         # a number, text, bracket, operator or error literal is not a sheet name
+                if any((a in ALNUM_END and b in ALNUM_START) or (a == b == "'S x'") for a, b in zip(toks, toks[1:])):
+                    exp = 'SKIP'            # adjacent tokens that lex as one word (A1 1 -> sheet A11; 'S x''S x' -> one quoted name)
+                if noeq and exp != 'SKIP':
+                    exp = 'VALID' if (L == 1 and exp == 'VALID') else 'INVALID'       # without '=' only a lone error literal is a formula
+                if exp in ('SKIP', 'UNSPEC'):
+                    oc[exp] = oc.get(exp, 0) + 1
+                    continue
+                text = ('' if noeq else '=') + ''.join(toks) + '!' + err
+                st, b = parse(text)
+                n += 1
+                k = '%s/%s' % (exp, st)
+                oc[k] = oc.get(k, 0) + 1
+                if st.startswith('ESC'):
+                    fails.append(Fail('escape', got=st, exp='FormulaError or a formula', text=text, src='errsheet', feat='errsheet'))
+                elif exp == 'INVALID' and st == 'VALID':
+                    fails.append(Fail('accepted-invalid', got=b[-1].get_expr, exp='rejected', text=text, src='errsheet', feat='errsheet'))
+                elif exp == 'VALID' and st == 'INVALID':
+                    fails.append(Fail('rejected-valid', got=st, exp=exp, text=text, src='errsheet', feat='errsheet', signrun=G.has_sign_run(text)))
+    return result(n, list(oc), fails[:50])
+
+
 def run_case(case):
-    return {'soup': run_soup, 'raw': run_raw, 'edit': run_edit, 'num': run_num, 'juxta': run_juxta, 'special': run_special,
+    return {'errsheet': run_errsheet, 'soup': run_soup, 'raw': run_raw, 'edit': run_edit, 'num': run_num, 'juxta': run_juxta, 'special': run_special,
             'colon': run_colon, 'noeq': run_noeq, 'clash': run_clash}[case[0]](case)
 
 
@@ -458,5 +513,6 @@ def run(ctx):
     ctx.explore(run_case, special_cases(ctx.tier), chunksize=1, label='special_reference_and_error_tokens')
     ctx.explore(run_case, colon_cases(ctx.tier), chunksize=2, label='range_operator_as_a_token')
     ctx.explore(run_case, noeq_cases(ctx.tier), chunksize=1, label='text_without_leading_equal_sign')
+    ctx.explore(run_case, errsheet_cases(ctx.tier), chunksize=1, label='sheet_qualified_error_literals')
     ctx.explore(run_case, clash_cases(ctx.tier), chunksize=1, label='names_spelled_like_called_functions')
     return {'strings_parsed': ctx.transitions}
